@@ -44,6 +44,10 @@ class ManifestLoader::ManifestLoaderImpl: public ParseActions {
   struct IncludeEntry {
     /// The absolute path the file was read from.
     std::string path;
+    /// The identity of the file, if it could be determined (the same file can
+    /// be spelled in many ways: "a.ninja", "./a.ninja", ...).
+    bool hasFileID = false;
+    llvm::sys::fs::UniqueID fileID;
     /// An owning reference to the buffer consumed by the parser.
     std::unique_ptr<llvm::MemoryBuffer> data;
     /// The parser for the file.
@@ -106,8 +110,12 @@ public:
 
     // A file that is still being loaded cannot be entered again: it would
     // include itself forever (and, included twice, 2^depth times).
+    llvm::sys::fs::UniqueID fileID;
+    bool hasFileID = !llvm::sys::fs::getUniqueID(path, fileID);
     for (const auto& entry: includeStack) {
-      if (forToken && entry.path == path.str()) {
+      if (forToken && (entry.path == path.str() ||
+                       (hasFileID && entry.hasFileID &&
+                        entry.fileID == fileID))) {
         error("recursive include", *forToken);
         return false;
       }
@@ -125,6 +133,8 @@ public:
     auto parser = llvm::make_unique<Parser>(buffer->getBuffer(), *this);
     includeStack.emplace_back(path.str(), std::move(buffer),
                               std::move(parser), scope);
+    includeStack.back().hasFileID = hasFileID;
+    includeStack.back().fileID = fileID;
 
     return true;
   }
